@@ -54,6 +54,8 @@ def simp(e):
         return simp(('op', '*', N(-1), x))
     if op == 'not':
         x = a[0]
+        if x[0] == 'num':
+            return N(0 if x[1] != 0 else 1)
         if x[0] == 'op' and x[1] in NEG:
             return simp(('op', NEG[x[1]], x[2], x[3]))
         if x[0] == 'op' and x[1] == 'not':
@@ -1636,13 +1638,33 @@ def compare_path_summaries(gf, gc, fparams, cparams, fout=(), cout=(), fstart=No
                 snap = (dict(b.f2c), dict(b.c2f))
                 same(p, close, full=False)
                 ds = []
-                for x, y in list(zip(p[1], close[1])) + list(zip(p[2], close[2])) + [(p[3], close[3])]:
+                for x, y in list(zip(p[1], close[1])) + [(p[3], close[3])]:
                     ds += min_diff(b, x, y)
                 if len(p[1]) != len(close[1]):
-                    ds.append('different number of calls: %d vs %d' % (len(p[1]), len(close[1])))
-                if len(p[2]) != len(close[2]):
-                    ds.append('different outputs written: reference %s vs port %s' % (
-                        ', '.join(ir.fmt(o[2]) for o in p[2]), ', '.join(ir.fmt(o[2]) for o in close[2])))
+                    ds.append('different calls: reference [%s] vs port [%s]' % (
+                        '; '.join(ir.fmt(c) for c in p[1]), '; '.join(ir.fmt(c) for c in close[1])))
+                # outputs: pair the targets by the variable bijection, then compare the values
+                fo = {ir.fmt(o[2]): o for o in p[2]}
+                co = {ir.fmt(o[2]): o for o in close[2]}
+                used = set()
+                for fname, o in sorted(fo.items()):
+                    cname = None
+                    t = o[2]
+                    if t[0] == 'var':
+                        cname = b.f2c.get(t[1])
+                        if cname is None:
+                            for cand in (t[1], '.' + t[1]):
+                                if cand in co:
+                                    cname = cand
+                    if cname is None or cname not in co:
+                        ds.append('`%s` is written only by the reference (= %s)' % (fname, ir.fmt(o[3])[:80]))
+                        continue
+                    used.add(cname)
+                    for d in min_diff(b, o[3], co[cname][3]):
+                        ds.append('%s: %s' % (fname, d))
+                for cname, o in sorted(co.items()):
+                    if cname not in used:
+                        ds.append('`%s` is written only by the port (= %s)' % (cname, ir.fmt(o[3])[:80]))
                 b.f2c, b.c2f = snap
                 left.remove(close)
                 text = 'under [%s] the reference (line %s) and the port (line %s) differ: %s' % (
